@@ -29,6 +29,11 @@
                    The session context being done is the same moment as reqQuit, so s_quit stands for both;
                    a watcher in its grace period can always go on to kill (LTimer), which covers ctx.Done.
 
+     preview command  prints lines (LOutput), may close or redirect its output while it goes on running (LCloseOut:
+                   output EOF and process exit are different events; cmd.Wait() returns only at the exit), ends
+                   (LChildExit) or is killed (LKill).  The previewer sends finishChan only after cmd.Wait(), so
+                   goroutine 3 keeps listening for cancel / kill / quit for as long as the process lives.
+
    A state holds the shared variables and each party's control point; a label is one atomic step of one
    party (or of the environment: the user, the preview command).  `step` returns None when the label is
    not enabled.  A schedule is a list of labels; `run` skips labels that are not enabled, so every list
@@ -79,7 +84,10 @@ Inductive phase :=
 | PRun (w : watcher) (rendered dirty : bool)   (* command started; dirty = lines not yet published *)
 | PStop.                                       (* previewer loop left after reqQuit *)
 
-Record proc := mkP { p_ver : nat; p_req : request; p_alive : bool; p_out : list str }.
+(* p_alive: the process exists (cmd.Wait has not returned and would block); p_open: the pipe fzf reads its output from
+   is still open (goroutine 1 has not seen EOF).  The two are independent while the command lives: a command may close
+   or redirect its stdout/stderr and keep running (LCloseOut), e.g. `echo summary; exec >/dev/null 2>&1; sleep 600`. *)
+Record proc := mkP { p_ver : nat; p_req : request; p_alive : bool; p_open : bool; p_out : list str }.
 
 (* which machine: pol_poll = goroutine 3 polls the mailbox (b3cab5f); pol_exit = what the session end
    waits for before the process ends. *)
@@ -87,7 +95,10 @@ Inductive exit_mode :=
 | ExitNoWait        (* before 268c349: EvtQuit is published at once; the kill races with the end of the process *)
 | ExitWaitsRunning  (* 268c349: waits while `previewing` (a command started and not yet cleaned up) *)
 | ExitWaitsStopped. (* 5b17ce0: waits until the previewer goroutine has left its loop (<-previewerDone) *)
-Record policy := mkPol { pol_poll : bool; pol_exit : exit_mode }.
+(* pol_early: the previewer tells goroutine 3 to stop (finishChan) as soon as the OUTPUT has ended, before cmd.Wait()
+   has returned.  false = the tree: `<-eofChan; cmd.Wait(); finishChan <- true`.  true = regression witness (seed
+   C20-5): with a command that closes its output and lives on, nobody is left to kill it. *)
+Record policy := mkPol { pol_poll : bool; pol_exit : exit_mode; pol_early : bool }.
 
 Record state := mkS {
   s_ui : uistate; s_tmpl : tmpl; s_visible : bool;
@@ -175,6 +186,8 @@ Inductive label :=
 | LPoll                         (* mailbox poll (b3cab5f) *)
 (* preview command *)
 | LOutput (l : str) | LChildExit
+| LCloseOut                     (* the LIVE command closes / redirects its stdout and stderr: goroutine 1 reads EOF,
+                                   goroutine 2 publishes the final result and ends; the process goes on *)
 (* session end *)
 | LExit                         (* render loop ends: reqQuit, killPreview(), cancel() of the session context *)
 | LQuitPub                      (* the exit path stops waiting and publishes EvtQuit *)
@@ -185,8 +198,12 @@ Definition any_alive (tab : list proc) : bool := existsb p_alive tab.
 
 Definition upd_hd (tab : list proc) (f : proc -> proc) : list proc :=
   match tab with p :: r => f p :: r | [] => [] end.
-Definition kill_p (p : proc) : proc := mkP (p_ver p) (p_req p) false (p_out p).
-Definition out_p (l : str) (p : proc) : proc := mkP (p_ver p) (p_req p) (p_alive p) (p_out p ++ [l]).
+Definition hd_open (tab : list proc) : bool := match tab with p :: _ => p_open p | [] => false end.
+Definition kill_p (p : proc) : proc := mkP (p_ver p) (p_req p) false (p_open p) (p_out p).
+Definition out_p (l : str) (p : proc) : proc := mkP (p_ver p) (p_req p) (p_alive p) (p_open p) (p_out p ++ [l]).
+Definition close_p (p : proc) : proc := mkP (p_ver p) (p_req p) (p_alive p) false (p_out p).
+(* finishChan is received by goroutine 3 in its outer select and inside the grace period of cancel(false) *)
+Definition finish_w (w : watcher) : watcher := match w with WListen | WGrace => WDone | _ => w end.
 Definition hd_out (tab : list proc) : list str := match tab with p :: _ => p_out p | [] => [] end.
 
 Definition is_stop (ph : phase) : bool := match ph with PStop => true | _ => false end.
@@ -292,19 +309,24 @@ Definition step (pol : policy) (l : label) (s : state) : option state :=
       end
   | LSpawn =>
       match s_ph s with
-      | PTaken r => Some (set_tab_ph_disp s (mkP (s_pver s) r true [] :: s_tab s) (PRun WListen false false) (s_disp s))
+      | PTaken r => Some (set_tab_ph_disp s (mkP (s_pver s) r true true [] :: s_tab s) (PRun WListen false false) (s_disp s))
       | _ => None
       end
   | LReap =>
       match s_ph s with
       | PRun _ _ _ =>
+          (* the process is gone: its end closes the pipe if the command had not closed it before (goroutine 2
+             publishes the final result at EOF), cmd.Wait() returns, the helpers are told to stop and are reaped *)
           if hd_alive (s_tab s) then None
-          else Some (set_tab_ph_disp s (s_tab s) PIdle (Some (s_pver s, hd_out (s_tab s))))
+          else Some (set_tab_ph_disp s (s_tab s) PIdle
+                       (if hd_open (s_tab s) then Some (s_pver s, hd_out (s_tab s)) else s_disp s))
       | _ => None
       end
   | LTick =>
       match s_ph s with
-      | PRun w _ true => Some (set_tab_ph_disp s (s_tab s) (PRun w true false) (Some (s_pver s, hd_out (s_tab s))))
+      | PRun w _ true =>
+          if hd_open (s_tab s) then Some (set_tab_ph_disp s (s_tab s) (PRun w true false) (Some (s_pver s, hd_out (s_tab s))))
+          else None               (* goroutine 2 has ended at EOF *)
       | _ => None
       end
   | LTimer =>
@@ -332,7 +354,8 @@ Definition step (pol : policy) (l : label) (s : state) : option state :=
   | LOutput ln =>
       match s_ph s with
       | PRun w rend _ =>
-          if hd_alive (s_tab s) then Some (set_tab_ph_disp s (upd_hd (s_tab s) (out_p ln)) (PRun w rend true) (s_disp s))
+          if hd_alive (s_tab s) && hd_open (s_tab s)
+          then Some (set_tab_ph_disp s (upd_hd (s_tab s) (out_p ln)) (PRun w rend true) (s_disp s))
           else None
       | _ => None
       end
@@ -340,6 +363,19 @@ Definition step (pol : policy) (l : label) (s : state) : option state :=
       match s_ph s with
       | PRun w rend d =>
           if hd_alive (s_tab s) then Some (set_tab_ph_disp s (upd_hd (s_tab s) kill_p) (PRun w rend d) (s_disp s))
+          else None
+      | _ => None
+      end
+  | LCloseOut =>
+      (* EOF on the pipe while the process lives: goroutine 2 publishes {version, lines} and sets `rendered`; the
+         previewer is now blocked in cmd.Wait() and goroutine 3 keeps listening (the tree), or has been told to stop
+         already (pol_early) *)
+      match s_ph s with
+      | PRun w _ _ =>
+          if hd_alive (s_tab s) && hd_open (s_tab s)
+          then Some (set_tab_ph_disp s (upd_hd (s_tab s) close_p)
+                       (PRun (if pol_early pol then finish_w w else w) true false)
+                       (Some (s_pver s, hd_out (s_tab s))))
           else None
       | _ => None
       end
@@ -400,9 +436,10 @@ Definition quiescent (pol : policy) (s : state) : bool :=
 Definition alive_procs (s : state) : list proc := filter p_alive (s_tab s).
 
 (* the machine of the code as it is now, the one before b3cab5f, and one whose exit waits *)
-Definition coded : policy := mkPol true ExitWaitsStopped.         (* the tree with b3cab5f, 268c349, 5b17ce0 *)
-Definition after_268c349 : policy := mkPol true ExitWaitsRunning. (* regression: waited only while `previewing` *)
-Definition old_machine : policy := mkPol false ExitNoWait.        (* regression: the tree before the three fixes *)
+Definition coded : policy := mkPol true ExitWaitsStopped false.         (* the tree with b3cab5f, 268c349, 5b17ce0 *)
+Definition after_268c349 : policy := mkPol true ExitWaitsRunning false. (* regression: waited only while `previewing` *)
+Definition old_machine : policy := mkPol false ExitNoWait false.        (* regression: the tree before the three fixes *)
+Definition finish_at_eof : policy := mkPol true ExitWaitsStopped true.  (* regression witness: finishChan before cmd.Wait() *)
 
 (* ================================================================================================
    The scroll machine: goroutine 2 of ONE preview command together with the render loop's handling of
